@@ -151,6 +151,14 @@ func (r *Runner) One(p Prog) {
 		return
 	}
 	r.count(p.Origin, 3)
+	// a listed known finding executed as a fixed case is reported under its own
+	// listed key, so that every listed finding that still fails prints its line
+	if k, ok := strings.CutPrefix(p.Origin, "known:"); ok && r.C.IsKnown(k) {
+		r.note(k, o.Class, o.Detail, p.Src, p.Origin)
+		r.C.Violate(k, fmt.Sprintf("%s [%s] witness %s (from %s): %s", r.What, o.Class, k, p.Origin, o.Detail),
+			Case{Src: p.Src, Origin: p.Origin, Mode: r.Mode})
+		return
+	}
 	r.Report(p, o)
 }
 
@@ -374,7 +382,7 @@ func (r *Runner) Run() {
 	// (0) the listed known findings, as fixed cases
 	still, gone := 0, []string{}
 	for _, k := range c.KnownKeys() {
-		if strings.HasPrefix(k, "fmtfile:") || strings.HasPrefix(k, "save:") {
+		if strings.HasPrefix(k, "fmtfile:") || strings.HasPrefix(k, "save:") || strings.HasPrefix(k, "fmtfail:") {
 			continue // belongs to the named-file / format-on-save workload
 		}
 		src, ok := KeyProgram(k)
